@@ -6,16 +6,22 @@ scalars, and the constant ``pi``.
 """
 import numpy
 
-from .scalars import PI, Sym, SymInt, Unsupported
+from .scalars import CTX, PI, Sym, SymInt, Unsupported
+
+
+def _fp():
+    from . import fp
+
+    return fp
 
 
 def has_sym(a):
-    if isinstance(a, (Sym, SymInt)):
+    if isinstance(a, (Sym, SymInt)) or type(a).__name__ == "SymFP":
         return True
     if isinstance(a, numpy.ndarray):
         if a.dtype != object:
             return False
-        return any(isinstance(x, (Sym, SymInt)) for x in a.flat)
+        return any(isinstance(x, (Sym, SymInt)) or type(x).__name__ == "SymFP" for x in a.flat)
     if isinstance(a, (list, tuple)):
         return any(has_sym(x) for x in a)
     return False
@@ -45,6 +51,15 @@ class _Linalg:
         arr = numpy.asarray(x, dtype=object) if not isinstance(x, numpy.ndarray) else x
         if arr.dtype != object:
             return numpy.linalg.norm(arr)
+        if any(type(e).__name__ == "SymFP" for e in arr.flat):
+            SymFP = _fp().SymFP
+            acc = None
+            for e in arr.flat:  # sequential sum of squares (documented model of the dot product order)
+                e = SymFP.lift(e)
+                acc = e * e if acc is None else acc + e * e
+            return acc.sqrt()
+        if not any(isinstance(e, Sym) for e in arr.flat):
+            return numpy.linalg.norm(numpy.array(arr, dtype=float))
         acc = Sym.const(0)
         for e in arr.flat:
             e = Sym.lift(e)
@@ -55,8 +70,15 @@ class _Linalg:
 
 
 class NpProxy:
-    pi = PI
     linalg = _Linalg()
+
+    @property
+    def pi(self):
+        if getattr(CTX, "fp_mode", False):
+            import math
+
+            return _fp().SymFP(_fp().fpval(math.pi))
+        return PI
 
     def __getattr__(self, n):
         return getattr(numpy, n)
@@ -115,25 +137,25 @@ class NpProxy:
     # scalar functions -------------------------------------------------------------------------
     @staticmethod
     def sqrt(x, *a, **k):
-        if isinstance(x, Sym):
+        if isinstance(x, Sym) or type(x).__name__ == "SymFP":
             return x.sqrt()
         return numpy.sqrt(x, *a, **k)
 
     @staticmethod
     def cos(x, *a, **k):
-        if isinstance(x, Sym):
+        if isinstance(x, Sym) or type(x).__name__ == "SymFP":
             return x.cos()
         return numpy.cos(x, *a, **k)
 
     @staticmethod
     def sin(x, *a, **k):
-        if isinstance(x, Sym):
+        if isinstance(x, Sym) or type(x).__name__ == "SymFP":
             return x.sin()
         return numpy.sin(x, *a, **k)
 
     @staticmethod
     def abs(x, *a, **k):
-        if isinstance(x, Sym):
+        if isinstance(x, Sym) or type(x).__name__ == "SymFP":
             return abs(x)
         return numpy.abs(x, *a, **k)
 
